@@ -601,7 +601,8 @@ func c05Cases(thorough bool) []c05Case {
 		}
 		for _, stack := range []string{"sub-http1", "http1-sub"} {
 			for _, ps := range []int{1, 2, 1000} {
-				for _, after := range []string{"", "a", "b", "b/c", "c", "zz"} {
+				// (start points need not be repository names: a start point is just a string to sort after)
+				for _, after := range []string{"", "a", "b", "b/c", "c", "zz", "b/", "a-", "b~", "a b", "b?x=y", "B", "a/"} {
 					add(c05Case{Kind: "repos", Stack: stack, Items: items, ClientN: ps, After: after})
 				}
 			}
